@@ -39,24 +39,115 @@ theorem sim_eval (ω : Addr → Option (SVal ν)) (d : Nat) : ∀ (n : Nat) (e :
     | logic ln ty l r hty hl hr =>
       simp only [logicTys, List.mem_cons, List.not_mem_nil, or_false] at hty
       rcases hty with h | h | h | h | h | h | h | h | h | h
-      · exact sim_logic_andor ih ln ty l r (.inr h) hl hr s σ henv
-      · exact sim_logic_andor ih ln ty l r (.inl h) hl hr s σ henv
-      · exact sim_logic_eq ih ln ty l r (.inl h) hl hr s σ henv
-      · exact sim_logic_eq ih ln ty l r (.inr (.inr (.inl h))) hl hr s σ henv
-      · exact sim_logic_order ih ln ty l r (.inl h) hl hr s σ henv
-      · exact sim_logic_order ih ln ty l r (.inr (.inl h)) hl hr s σ henv
-      · exact sim_logic_order ih ln ty l r (.inr (.inr (.inl h))) hl hr s σ henv
-      · exact sim_logic_order ih ln ty l r (.inr (.inr (.inr h))) hl hr s σ henv
-      · exact sim_logic_eq ih ln ty l r (.inr (.inl h)) hl hr s σ henv
-      · exact sim_logic_eq ih ln ty l r (.inr (.inr (.inr h))) hl hr s σ henv
+      · exact sim_logic_andor ih ln ty l r (.inr h) hl hr s σ henv (by omega)
+      · exact sim_logic_andor ih ln ty l r (.inl h) hl hr s σ henv (by omega)
+      · exact sim_logic_eq ih ln ty l r (.inl h) hl hr s σ henv (by omega)
+      · exact sim_logic_eq ih ln ty l r (.inr (.inr (.inl h))) hl hr s σ henv (by omega)
+      · exact sim_logic_order ih ln ty l r (.inl h) hl hr s σ henv (by omega)
+      · exact sim_logic_order ih ln ty l r (.inr (.inl h)) hl hr s σ henv (by omega)
+      · exact sim_logic_order ih ln ty l r (.inr (.inr (.inl h))) hl hr s σ henv (by omega)
+      · exact sim_logic_order ih ln ty l r (.inr (.inr (.inr h))) hl hr s σ henv (by omega)
+      · exact sim_logic_eq ih ln ty l r (.inr (.inl h)) hl hr s σ henv (by omega)
+      · exact sim_logic_eq ih ln ty l r (.inr (.inr (.inr h))) hl hr s σ henv (by omega)
     | arith ln ty l r hty hl hr =>
       simp only [arithTys, List.mem_cons, List.not_mem_nil, or_false] at hty
       rcases hty with h | h | h | h | h | h
-      · exact sim_arith_basic ih ln ty l r (.inl h) hl hr s σ henv
-      · exact sim_arith_basic ih ln ty l r (.inr (.inl h)) hl hr s σ henv
-      · exact sim_arith_basic ih ln ty l r (.inr (.inr (.inl h))) hl hr s σ henv
-      · exact sim_arith_basic ih ln ty l r (.inr (.inr (.inr (.inl h)))) hl hr s σ henv
-      · exact sim_arith_basic ih ln ty l r (.inr (.inr (.inr (.inr h)))) hl hr s σ henv
-      · subst h; exact sim_arith_mod ih ln l r hl hr s σ henv
+      · exact sim_arith_basic ih ln ty l r (.inl h) hl hr s σ henv (by omega)
+      · exact sim_arith_basic ih ln ty l r (.inr (.inl h)) hl hr s σ henv (by omega)
+      · exact sim_arith_basic ih ln ty l r (.inr (.inr (.inl h))) hl hr s σ henv (by omega)
+      · exact sim_arith_basic ih ln ty l r (.inr (.inr (.inr (.inl h)))) hl hr s σ henv (by omega)
+      · exact sim_arith_basic ih ln ty l r (.inr (.inr (.inr (.inr h)))) hl hr s σ henv (by omega)
+      · subst h; exact sim_arith_mod ih ln l r hl hr s σ henv (by omega)
+
+/-! ### results that read within a fixed small fuel (used by the statement-level refinement, where
+stored values must stay scalar for the environment relation `EnvRel ω 0` to be kept) -/
+
+/-- expressions whose top node is not a list / dictionary literal: their value is a scalar, or whatever a name holds -/
+inductive TopScalar : Expr → Prop
+  | id (i : Ident) : TopScalar (.id i)
+  | str (ln : Nat) (t : String) : TopScalar (.str ln t)
+  | logic (ln ty : Nat) (l r : Expr) : TopScalar (.logic ln ty l r)
+  | arith (ln ty : Nat) (l r : Expr) : TopScalar (.arith ln ty l r)
+
+theorem sim_eval_top (ω : Addr → Option (SVal ν)) : ∀ (n : Nat) (e : Expr) (s : VM ν) (σ : SState ν),
+    PureExpr e → TopScalar e → EnvRel ω 0 s σ → Sim 0 (Reads ω 1) s σ (evalExpr n e) (evalE n e)
+  | 0, e, s, σ, _, _, _ => by
+    have h1 : evalExpr (ν := ν) 0 e = outOfFuel := by simp only [evalExpr]
+    have h2 : evalE (ν := ν) 0 e = sfail .fuel := by simp only [evalE]
+    rw [h1, h2]; exact sim_fuel
+  | n+1, e, s, σ, he, ht, henv => by
+    have ih : IH ω 0 n := sim_eval ω 0 n
+    cases ht with
+    | id i =>
+      simp only [evalExpr, evalE]
+      refine sim_bind (sim_matchID i.lit) fun s1 x y hF hxy => ?_
+      cases hxy with
+      | name t => exact sim_find (henv.frame hF) t
+      | number x => exact sim_alloc_scalar _ _ (by omega) (fun _ _ => rfl)
+    | str ln t =>
+      simp only [evalExpr, evalE]
+      exact sim_alloc_scalar _ _ (by omega) (fun _ _ => rfl)
+    | logic ln ty l r =>
+      cases he with
+      | logic _ _ _ _ hty hl hr =>
+      simp only [logicTys, List.mem_cons, List.not_mem_nil, or_false] at hty
+      rcases hty with h | h | h | h | h | h | h | h | h | h
+      · exact sim_logic_andor ih ln ty l r (.inr h) hl hr s σ henv (by omega)
+      · exact sim_logic_andor ih ln ty l r (.inl h) hl hr s σ henv (by omega)
+      · exact sim_logic_eq ih ln ty l r (.inl h) hl hr s σ henv (by omega)
+      · exact sim_logic_eq ih ln ty l r (.inr (.inr (.inl h))) hl hr s σ henv (by omega)
+      · exact sim_logic_order ih ln ty l r (.inl h) hl hr s σ henv (by omega)
+      · exact sim_logic_order ih ln ty l r (.inr (.inl h)) hl hr s σ henv (by omega)
+      · exact sim_logic_order ih ln ty l r (.inr (.inr (.inl h))) hl hr s σ henv (by omega)
+      · exact sim_logic_order ih ln ty l r (.inr (.inr (.inr h))) hl hr s σ henv (by omega)
+      · exact sim_logic_eq ih ln ty l r (.inr (.inl h)) hl hr s σ henv (by omega)
+      · exact sim_logic_eq ih ln ty l r (.inr (.inr (.inr h))) hl hr s σ henv (by omega)
+    | arith ln ty l r =>
+      cases he with
+      | arith _ _ _ _ hty hl hr =>
+      simp only [arithTys, List.mem_cons, List.not_mem_nil, or_false] at hty
+      rcases hty with h | h | h | h | h | h
+      · exact sim_arith_basic ih ln ty l r (.inl h) hl hr s σ henv (by omega)
+      · exact sim_arith_basic ih ln ty l r (.inr (.inl h)) hl hr s σ henv (by omega)
+      · exact sim_arith_basic ih ln ty l r (.inr (.inr (.inl h))) hl hr s σ henv (by omega)
+      · exact sim_arith_basic ih ln ty l r (.inr (.inr (.inr (.inl h)))) hl hr s σ henv (by omega)
+      · exact sim_arith_basic ih ln ty l r (.inr (.inr (.inr (.inr h)))) hl hr s σ henv (by omega)
+      · subst h; exact sim_arith_mod ih ln l r hl hr s σ henv (by omega)
+
+/-- what a loop may iterate over with scalar loop variables: a top-scalar expression (a name holding an
+empty container, …) or a list / dictionary literal of top-scalar items -/
+inductive IterTarget : Expr → Prop
+  | top (e : Expr) : PureExpr e → TopScalar e → IterTarget e
+  | arr (ln : Nat) (items : List Expr) : (∀ e ∈ items, PureExpr e ∧ TopScalar e) → IterTarget (.arr ln items)
+  | hm (ln : Nat) (kvs : List (Expr × Expr)) : (∀ kv ∈ kvs, PureExpr kv.2 ∧ TopScalar kv.2) → IterTarget (.hm ln kvs)
+
+theorem IterTarget.pure {e : Expr} (h : IterTarget e) : PureExpr e := by
+  cases h with
+  | top _ hp _ => exact hp
+  | arr ln items hi => exact .arr _ _ fun e he => (hi e he).1
+  | hm ln kvs hi => exact .hm _ _ fun kv hkv => (hi kv hkv).1
+
+theorem sim_eval_target (ω : Addr → Option (SVal ν)) (n : Nat) (e : Expr) (s : VM ν) (σ : SState ν)
+    (he : IterTarget e) (henv : EnvRel ω 0 s σ) : Sim 0 (Reads ω 2) s σ (evalExpr n e) (evalE n e) := by
+  cases he with
+  | top _ hp ht => exact sim_weaken (fun _ _ _ h => h.mono (by omega)) (sim_eval_top ω n e s σ hp ht henv)
+  | arr ln items hi =>
+    cases n with
+    | zero =>
+      have h1 : evalExpr (ν := ν) 0 (.arr ln items) = outOfFuel := by simp only [evalExpr]
+      have h2 : evalE (ν := ν) 0 (.arr ln items) = sfail .fuel := by simp only [evalE]
+      rw [h1, h2]; exact sim_fuel
+    | succ n =>
+      exact sim_arr' (k := 1) ln items s σ fun e he s1 hF1 =>
+        sim_eval_top ω n e s1 σ (hi e he).1 (hi e he).2 (henv.frame hF1)
+  | hm ln kvs hi =>
+    cases n with
+    | zero =>
+      have h1 : evalExpr (ν := ν) 0 (.hm ln kvs) = outOfFuel := by simp only [evalExpr]
+      have h2 : evalE (ν := ν) 0 (.hm ln kvs) = sfail .fuel := by simp only [evalE]
+      rw [h1, h2]; exact sim_fuel
+    | succ n =>
+      exact sim_hm' (k := 1) ln kvs s σ fun kv hkv s1 hF1 =>
+        sim_eval_top ω n kv.2 s1 σ (hi kv hkv).1 (hi kv hkv).2 (henv.frame hF1)
 
 end ZnVerif.Proofs
